@@ -1,6 +1,7 @@
 package coop
 
 import (
+	"strconv"
 	"fmt"
 	"reflect"
 	"runtime"
@@ -135,6 +136,31 @@ func AccessStructF(f func() interface{}, name string, write bool) {
 		return
 	}
 	accessFields(v.Elem(), name, write, 0)
+}
+
+// AccessElemsF reports an access to every field of every element of the slice f() returns (struct elements): an append or
+// copy into a backing array that other holders of the slice may still be walking.
+func AccessElemsF(f func() interface{}, name string, write bool) {
+	if !hbEnabled || mode != Managed || cur == nil {
+		return
+	}
+	var p interface{}
+	func() {
+		defer func() { _ = recover() }()
+		p = f()
+	}()
+	if p == nil {
+		return
+	}
+	v := reflect.ValueOf(p)
+	if v.Kind() != reflect.Slice {
+		return
+	}
+	for i := 0; i < v.Len(); i++ {
+		if e := v.Index(i); e.Kind() == reflect.Struct && e.CanAddr() {
+			accessFields(e, name+"["+strconv.Itoa(i)+"]", write, 0)
+		}
+	}
 }
 
 func accessFields(s reflect.Value, name string, write bool, depth int) {
